@@ -335,11 +335,14 @@ impl Handles {
     }
     pub fn dressed_parts(&self, d: &Dressed) -> Parts {
         let t = self.dressed_triple(d);
-        let opt = |s: &String| if s.is_empty() { None } else { Some(s.clone()) };
+        // odd spellings now and then: the subtags reach the library through their parsers
+        let flip = |s: &String, on: bool| if on { if s.bytes().any(|b| b.is_ascii_lowercase()) { s.to_ascii_uppercase() } else { s.to_ascii_lowercase() } } else { s.clone() };
+        let odd = d.pick % 4 == 1;
+        let opt = |s: &String, on: bool| if s.is_empty() { None } else { Some(flip(s, on)) };
         Parts {
-            lang: self.lk.uni.langs[t.l as usize].clone(),
-            script: opt(&self.lk.uni.scripts[t.s as usize]),
-            region: opt(&self.lk.uni.regions[t.r as usize]),
+            lang: flip(&self.lk.uni.langs[t.l as usize], odd && d.pick & 4 != 0),
+            script: opt(&self.lk.uni.scripts[t.s as usize], odd && d.pick & 8 != 0),
+            region: opt(&self.lk.uni.regions[t.r as usize], odd && d.pick & 16 != 0),
             variants: d.variants.clone(),
             ext: d.ext.as_ref().and_then(|a| values::ext_string(a, false)),
         }
